@@ -33,6 +33,7 @@ type specEnv struct {
 	resolve func(name string) (SVal, bool)
 	pkg     *types.Package
 	qn      int
+	at      *ssa.BasicBlock // program point for local-variable resolution (nil: anywhere)
 }
 
 func (f *frame) baseEnv(heap *heapState) *specEnv {
@@ -439,17 +440,22 @@ func (env *specEnv) evalCall(x *ECall) SVal {
 			specFail("local(x) needs an identifier")
 		}
 		root := c.rootFrame
-		var found ssa.Value
-		for _, v := range root.debug[id.Name] {
-			if _, have := root.vals[v]; !have {
-				continue
+		if a, ok := root.debugAddr[id.Name]; ok {
+			if have, ok := root.vals[a]; ok {
+				return root.sval(have, a.Type())
 			}
-			found = v // the last recorded use/definition that has a value on this path
 		}
-		if found == nil {
-			specFail("local(%s): no such local (or not assigned on this path)", id.Name)
+		found, ok := root.lookupLocal(id.Name, env.at)
+		if !ok {
+			// not assigned on the paths to this point: an arbitrary value (the clause has to hold for it)
+			refs := root.debugRefs[id.Name]
+			if len(refs) == 0 {
+				specFail("local(%s): no such local variable", id.Name)
+			}
+			t := refs[0].X.Type()
+			return root.sval(root.havocVal(t, "local."+id.Name, env.heap), t)
 		}
-		return root.sval(root.vals[found], found.Type())
+		return root.sval(root.get(found), found.Type())
 	case "len":
 		v := arg(0)
 		switch v.T.Sort {
